@@ -94,6 +94,20 @@ fn main() {
                     println!("{:?} @{} -> {:?} check={}", t, i, h.highlight(t, i), h.highlight_check(t, i + 1));
                 }
             }
+            other if other.starts_with("abandon:") => {
+                // abandon:<n> — n times: start (deep 100000), run one slice of 3000 instructions, abandon it, evaluate (+ 1 2)
+                let n: usize = other["abandon:".len()..].parse().unwrap();
+                let _ = eval_all(&mut vm, "(define (deep n) (if (= n 0) 0 (+ 1 (deep (- n 1)))))");
+                let before = format!("{:?}", vm).len();
+                let mut last = String::new();
+                for _ in 0..n {
+                    let (cell, _) = marwood::parse::parse_text("(deep 100000)").unwrap();
+                    vm.prepare_eval(&cell).unwrap();
+                    let _ = vm.run_count(3000);
+                    last = format!("{:?}", eval_all(&mut vm, "(+ 1 2)"));
+                }
+                println!("  abandon x{} => {}; debug size {} -> {}", n, last, before, format!("{:?}", vm).len());
+            }
             other if other.starts_with("repeat:") => {
                 // repeat:<n>:<form> — evaluate the form n times in one VM and report the size of the VM's debug rendering
                 // (proportional to heap capacity) before and after
